@@ -3,7 +3,7 @@ CONSTANTS
   MaxDepth = 2
   Classes = {"Filter", "VideoIn", "VideoOut", "ImageIn", "ImageOut", "MQTTOut", "Recorder", "REST", "Util", "Webvis"}
   SchemeClasses = {"rtsp", "https", "exotic"}
-  CharClasses = {"plain", "bang", "mixed"}
+  CharClasses = {"plain", "bang", "mixed", "long"}
 INIT Init
 NEXT Next
 INVARIANT TypeOK
